@@ -113,6 +113,49 @@ theorem leg_rm_imm_formOkG (ctx : Spec.X86.Ctx) (rule : Rule) (p : Parsed) (mb :
   exact ⟨⟨hw, by simpa using c66, by simpa using cF3, by simpa using cF2, cF0, c9B, by omega, by simpa using ccont⟩,
     by rcases hmk with h | h <;> omega⟩
 
+/-- the same with a register as the second operand (fixed `cl` of the shifts: role none) -/
+theorem leg_rm_fixreg_formOkG (ctx : Spec.X86.Ctx) (rule : Rule) (p : Parsed) (mb : BitVec 8) (bytes : List (BitVec 8)) (pp d nimm : Nat)
+    (ka : RegKind) (fa f3 : FormOp) (ia : Nat) (k1 : RegKind) (i1 : Nat)
+    (hmode : ((if ctx.mode64 then rule.modes &&& 2 else rule.modes &&& 1) != 0) = true)
+    (R : LegRuleD rule nimm pp d) (hd : d < 8) (hdig : bits mb 3 3 = d)
+    (hra : fa.role = .rm)
+    (hic : allOk (opConds ctx rule p 0 f3 (.reg k1 i1)).1 = true)
+    (hreg : regOkB ka ia (regNum false p.B (bits mb 0 3)) p = true)
+    (hal : alignOps rule.oszEff rule.ops [.reg ka ia, .reg k1 i1] = some [(fa, some (.reg ka ia)), (f3, some (.reg k1 i1))])
+    (hparse : parse ctx.mode64 rule bytes = .ok p) (P : LegParsed rule p mb pp) :
+    formOk ctx rule [.reg ka ia, .reg k1 i1] {} bytes = true := by
+  obtain ⟨hvk, hpfx, hmodrm, hmod, hop, hw, hR'⟩ := P
+  obtain ⟨hmodes, hs, hpp8, h66, hF3, hF2, hpplt, hri, hmk, hmr, hmrm, himm, hrel, hmoff, ha67, hrev⟩ := R
+  obtain ⟨c66, cF3, cF2, cF0, c9B, c67, cseg, ccont⟩ := count_ppBytes pp hpplt
+  have hleg : isLegacySpace rule = true := by simp [isLegacySpace, hs]
+  have h2 : (opConds ctx rule p 0 fa (.reg ka ia)).2 = 0 := by simp [opConds, hra, hmodrm]
+  simp only [formOk, conds, hal, hparse, hmode]
+  simp only [operandConds, h2]
+  generalize opConds ctx rule p 0 f3 (.reg k1 i1) = X at hic ⊢
+  simp only [allOk_cons, allOk_append, decorConds, headConds, prefixConds, modrmConds, opConds, tailConds, hra,
+    allOk_regConds, allOk_nil, memOperandOf, implMemOf, usesVvvv, memDestOf, hic,
+    hasBcst, hleg, hri, hmodrm, hpfx, hvk, c66, cF3, cF2, cF0, c9B, c67, cseg, ccont, h66, hF3, hF2, hR']
+  simp [hop, hreg, hmod, hmr, hmrm, hs, hpp8, ha67, allOk, hdig]
+  exact ⟨⟨hw, by simpa using c66, by simpa using cF3, by simpa using cF2, cF0, c9B, by omega, by simpa using ccont⟩,
+    by rcases hmk with h | h <;> omega⟩
+
+/-- legacy shape [rm, x] with an opcode-extension digit, arbitrary register kind, second operand an immediate (any width / implied `1`) or a
+register (fixed `cl`): the second operand's own conditions of the monitor are a hypothesis (`hic`) -/
+theorem leg_rm_any_formOkG (ctx : Spec.X86.Ctx) (rule : Rule) (p : Parsed) (mb : BitVec 8) (bytes : List (BitVec 8)) (pp d nimm : Nat)
+    (ka : RegKind) (fa f3 : FormOp) (ia : Nat) (o1 : Operand)
+    (ho1 : (∃ v, o1 = .imm v) ∨ (∃ k i, o1 = .reg k i))
+    (hmode : ((if ctx.mode64 then rule.modes &&& 2 else rule.modes &&& 1) != 0) = true)
+    (R : LegRuleD rule nimm pp d) (hd : d < 8) (hdig : bits mb 3 3 = d)
+    (hra : fa.role = .rm)
+    (hic : allOk (opConds ctx rule p 0 f3 o1).1 = true)
+    (hreg : regOkB ka ia (regNum false p.B (bits mb 0 3)) p = true)
+    (hal : alignOps rule.oszEff rule.ops [.reg ka ia, o1] = some [(fa, some (.reg ka ia)), (f3, some o1)])
+    (hparse : parse ctx.mode64 rule bytes = .ok p) (P : LegParsed rule p mb pp) :
+    formOk ctx rule [.reg ka ia, o1] {} bytes = true := by
+  rcases ho1 with ⟨v, rfl⟩ | ⟨k, i, rfl⟩
+  · exact leg_rm_imm_formOkG ctx rule p mb bytes pp d nimm ka fa f3 ia v hmode R hd hdig hra hic hreg hal hparse P
+  · exact leg_rm_fixreg_formOkG ctx rule p mb bytes pp d nimm ka fa f3 ia k i hmode R hd hdig hra hic hreg hal hparse P
+
 /-- legacy form without ModRM, with immediate bytes: [66|F3|F2]? [REX]? escape opcode (64-bit mode) -/
 theorem parse_legacy_op_imm (r : Rule) (pp : Nat) (rex : Option (BitVec 8)) (o : BitVec 8) (imm : List (BitVec 8))
     (hpp : pp < 4) (hs : r.space = 0) (hfw : r.pp &&& 8 = 0) (hmap : r.map < 4) (hmk : r.modKind = 0)
